@@ -537,11 +537,19 @@ def periodics(factories):
     return
 
 
-def purge(node: dawgie.pl.dag.Node, target: str):
+def purge(node: dawgie.pl.dag.Node, target: str, failed: bool = True):
     executing = target in node.get('doing', [])
-    if target in node.get('do', []):
+    # a dependent whose run for this target is already out on the farm keeps
+    # executing (its reply completes it): forgetting it would let it be released
+    # a second time, release its own dependents under it and drop its reply
+    inflight = False
+    if executing and not failed:
+        import dawgie.pl.farm  # pylint: disable=import-outside-toplevel
+
+        inflight = dawgie.pl.farm.in_flight(node.tag, target)
+    if target in node.get('do', []) and not inflight:
         node.get('do').remove(target)
-    if target in node.get('doing', []):
+    if target in node.get('doing', []) and not inflight:
         node.get('doing').remove(target)
     if target in node.get('todo', []):
         node.get('todo').remove(target)
@@ -557,7 +565,7 @@ def purge(node: dawgie.pl.dag.Node, target: str):
         node.set('status', State.waiting)
 
     for child in node:
-        purge(child, target)
+        purge(child, target, False)
     return
 
 
